@@ -1,15 +1,17 @@
 #!/bin/bash
-# tools/chain_seeds.sh <suffix> P1 P2 ... : confirm (tools/confirm_seed.sh) and adopt (tools/adopt_seed.py) the
-# sub-agents' seeds /tmp/mut/<P>-out/A.* one after the other; each adopted seed is run against its own check
+# tools/chain_seeds.sh <suffix> P1[:M] P2[:M] ... : confirm (tools/confirm_seed.sh) and adopt (tools/adopt_seed.py) the
+# sub-agents' seeds /tmp/mut/<P>-out/<M>.* (M = A by default) one after the other; each adopted seed is run against
+# its own check
 S=$1; shift
 cd /verif
-for P in "$@"; do
-  V=$(bash tools/confirm_seed.sh $P A 2>&1 | grep VERDICT)
+for X in "$@"; do
+  P=${X%%:*}; M=${X##*:}; [ "$M" = "$X" ] && M=A
+  V=$(bash tools/confirm_seed.sh $P $M 2>&1 | grep VERDICT)
   echo "$V"
   if echo "$V" | grep -q "110 passed 0 failed" && echo "$V" | grep -qv "demo_with_change_rc=0" && echo "$V" | grep -q "demo_without_rc=0"; then
-    SEED_SUFFIX=$S python3 tools/adopt_seed.py $P A "$V" -- $P 2>&1 | grep -E "^C[0-9]+ |caught|missed" | tail -3
+    SEED_SUFFIX=$S python3 tools/adopt_seed.py $P $M "$V" -- $P 2>&1 | grep -E "^C[0-9]+ |caught|missed" | tail -3
   else
-    echo "NOT CONFIRMED $P"
+    echo "NOT CONFIRMED $P $M"
   fi
 done
 echo CHAIN-DONE
